@@ -491,9 +491,15 @@ impl<C: BgpConfig + Send> Session<C> {
                 self.handle_event(Event::KeepaliveMsg).await?;
             }
             BgpMsg::Update(m) => {
+                // RFC 4271 8.2.2: an UPDATE is only processed in the
+                // Established state; in any other state it is an FSM error
+                // (or ignored) and must not reach the application.
+                let established = self.state() == State::Established;
                 self.handle_event(Event::UpdateMsg).await?;
-                let tx = self.channel.clone();
-                let _ = tx.send(Message::UpdateMessage(m)).await;
+                if established {
+                    let tx = self.channel.clone();
+                    let _ = tx.send(Message::UpdateMessage(m)).await;
+                }
             }
             BgpMsg::Notification(m) => {
                 let tx = self.channel.clone();
